@@ -1,5 +1,5 @@
 (* Generated-obligation file for C18: the content-type tables read from mapping_service/utils.py on this run. *)
-From Curies.model Require Import Str Mapping.
+From Curies.model Require Import Str Optimize Mapping.
 From Curies.gen Require Gen.
 Theorem GenObl_C18_default : Gen.default_content_type = Mapping.default_content_type.
 Proof. reflexivity. Qed.
@@ -10,3 +10,8 @@ Print Assumptions GenObl_C18_supported.
 Theorem GenObl_C18_synonyms : Gen.content_type_synonyms = Mapping.content_type_synonyms.
 Proof. reflexivity. Qed.
 Print Assumptions GenObl_C18_synonyms.
+(* rdflib_custom._optimize_node: the node that is rewritten, the operand that is moved to the front, the two operand keys *)
+Theorem GenObl_C18_optimize : Gen.opt_join_name = Optimize.join_name /\ Gen.opt_multiset_name = Optimize.multiset_name /\
+  Gen.opt_operand_keys = (Optimize.k_p1, Optimize.k_p2).
+Proof. repeat split; reflexivity. Qed.
+Print Assumptions GenObl_C18_optimize.
